@@ -270,7 +270,10 @@ end
 /-! ## non-vacuity of the hypotheses -/
 
 example : EnvIn (List.replicate 64 255) Scalar29.pre_from_bytes_wide := by decide +kernel
-example : EnvIn (List.replicate 18 (2 ^ 29 - 1)) Scalar29.pre_mul_internal ∧
-    val29 (List.replicate 9 (2 ^ 29 - 1)) * val29 (List.replicate 9 (2 ^ 29 - 1)) < 2 ^ 261 * l := by decide +kernel
+/-- all limbs at the bound times `l - 1` satisfies the contract and the product bound of `mul_spec_of_lt` -/
+example : EnvIn (List.replicate 9 (2 ^ 29 - 1) ++ [485872620, 9640146, 501691798, 502512965, 333, 0, 0, 0, 1048576])
+      Scalar29.pre_mul_internal ∧
+    val29 (List.replicate 9 (2 ^ 29 - 1)) * val29 [485872620, 9640146, 501691798, 502512965, 333, 0, 0, 0, 1048576]
+      < 2 ^ 261 * l := by decide +kernel
 
 end Dalek.Props.C02.Scalar29
